@@ -51,6 +51,13 @@ func runC09(run *Run, replay string) {
 		}
 		blockAddrCases(run, blockAddrScenario(r), 12)
 		valueTargetCases(run, r, 12)
+		bodyTargetsCase(run, sc)
+		if i%3 == 0 {
+			// ... and for the generic schemas with focus blocks and typing-history states
+			for _, gs := range genScenarios(r, ScenarioOpts{Histories: 2, Inject: i%2 == 1, Gen: GenOpts{DynFocus: i%6 == 3, MaxDepth: 2}}) {
+				bodyTargetsCase(run, gs)
+			}
+		}
 		d, _ := sc.W.Dec.Path(sc.Main.Path)
 		res := safeCall("CollectReferenceTargets", func() (interface{}, error) { return d.CollectReferenceTargets() })
 		run.Res.Evaluations++
